@@ -1,6 +1,7 @@
 package main
 
 import (
+	"encoding/json"
 	"bytes"
 	"fmt"
 	"go/ast"
@@ -39,6 +40,9 @@ type World struct {
 	cg      *callgraph.Graph
 
 	ownerIdx *ownerIndex
+
+	bce     map[string]bool // unproven bounds checks, "file:line:col" of the '['
+	bceDone bool
 }
 
 func goEnv() []string {
@@ -415,4 +419,79 @@ func (w *World) ExprNear(pos token.Pos) string {
 		}
 	}
 	return "?"
+}
+
+// BoundsUnproven asks the Go compiler which index and slice expressions of
+// the module its prove pass could NOT show to be in bounds
+// (-d=ssa/check_bce): every other index or slice expression is in bounds on
+// every path.  Nothing is run; the packages are compiled (from /repo's
+// working tree plus the overlay) and the object files discarded.  nil means
+// the compiler could not be asked.
+func (w *World) BoundsUnproven() map[string]bool {
+	if w.bceDone {
+		return w.bce
+	}
+	w.bceDone = true
+	type ov struct {
+		Replace map[string]string
+	}
+	o := ov{Replace: map[string]string{}}
+	i := 0
+	for path, content := range w.Overlay {
+		i++
+		f := filepath.Join(w.TmpDir, fmt.Sprintf("bce_overlay_%d.go", i))
+		if err := os.WriteFile(f, content, 0o644); err != nil {
+			return nil
+		}
+		o.Replace[path] = f
+	}
+	js, _ := json.Marshal(o)
+	ovf := filepath.Join(w.TmpDir, "bce_overlay.json")
+	if err := os.WriteFile(ovf, js, 0o644); err != nil {
+		return nil
+	}
+	cmd := exec.Command("go", "build", "-overlay", ovf, "-gcflags="+modPath+"/...=-d=ssa/check_bce/debug=1", "./...")
+	cmd.Dir = w.Repo
+	cmd.Env = goEnv()
+	var eb bytes.Buffer
+	cmd.Stderr = &eb
+	cmd.Stdout = &eb
+	err := cmd.Run()
+	out := map[string]bool{}
+	n := 0
+	for _, line := range strings.Split(eb.String(), "\n") {
+		idx := strings.Index(line, ": Found Is")
+		if idx < 0 {
+			continue
+		}
+		loc := line[:idx] // file:line:col
+		parts := strings.Split(loc, ":")
+		if len(parts) < 3 {
+			continue
+		}
+		file := strings.Join(parts[:len(parts)-2], ":")
+		if !filepath.IsAbs(file) {
+			file = filepath.Join(w.Repo, file)
+		}
+		out[file+":"+parts[len(parts)-2]+":"+parts[len(parts)-1]] = true
+		n++
+	}
+	if n == 0 {
+		// a build that reports nothing at all did not run the pass (or failed)
+		_ = err
+		return nil
+	}
+	w.bce = out
+	return out
+}
+
+// InBoundsProven: the compiler eliminated the bounds check of the index or
+// slice expression whose '[' stands at pos.
+func (w *World) InBoundsProven(pos token.Pos) bool {
+	u := w.BoundsUnproven()
+	if u == nil || !pos.IsValid() {
+		return false
+	}
+	p := w.Fset.Position(pos)
+	return !u[fmt.Sprintf("%s:%d:%d", p.Filename, p.Line, p.Column)]
 }
